@@ -9,6 +9,7 @@
 //! Oracle: canonical dump of every table. After a fault: the database equals the pre-state or the
 //! post-state of an uninterrupted run, `Ok` only with the post-state; re-running a failed
 //! operation succeeds and reaches the post-state (random identifiers masked).
+pub mod migops;
 pub mod ops;
 pub mod twoconn;
 
@@ -27,7 +28,7 @@ use ops::{Fixture, OpDef};
 
 /// Columns whose content is freshly drawn randomness (masked when comparing a retry with an
 /// uninterrupted run; never masked when comparing with the pre-state).
-const MASK: &[(&str, &str)] = &[("accounts", "uuid"), ("addresses", "transparent_receiver_next_check_time")];
+const MASK: &[(&str, &str)] = &[("accounts", "uuid"), ("addresses", "transparent_receiver_next_check_time"), ("orchard_ironwood_migrations", "uuid")];
 
 pub fn digest(conn: &Connection, masked: bool) -> String {
     use sha2::{Digest, Sha256};
@@ -261,7 +262,7 @@ pub fn inject(op: &OpDef, w: &mut Wallet, fx: &Fixture, pre: &db::Snapshot, m: &
 
 fn tier_ops(tier: Tier) -> Vec<&'static str> {
     match tier {
-        Tier::Quick => vec!["scan1@mid", "tip@fresh", "truncate@mid", "lock@mid", "create_account@fresh", "sapling_roots@fresh", "orchard_roots@fresh", "next_address@mid", "tip_beyond@mid"],
+        Tier::Quick => vec!["scan1@mid", "tip@fresh", "truncate@mid", "lock@mid", "create_account@fresh", "sapling_roots@fresh", "orchard_roots@fresh", "next_address@mid", "tip_beyond@mid", "mig_replace@none", "mig_supersede@live_locked", "mig_update_tx_mined@live"],
         Tier::Thorough => vec![],
     }
 }
@@ -274,6 +275,14 @@ pub fn replay(kind: &str, case: &Value) -> Result<(), String> {
         let wal = case["wal"].as_bool().unwrap_or(false);
         let x = case["x"].as_u64().unwrap_or(1);
         return if case["class"].as_u64() == Some(4) { twoconn::writer_observed(&fx, op, wal, x).map(|_| ()) } else { twoconn::reader_interrupted(&fx, op, wal, x).map(|_| ()) };
+    }
+    if kind == "migread" {
+        let fx = Fixture::build();
+        let reads = migops::migration_reads();
+        let name = case["read"].as_str().unwrap_or("");
+        let rd = reads.iter().find(|r| r.name == name).ok_or_else(|| format!("unknown read {name}"))?;
+        let wr = twoconn::MIG_WRITERS.iter().copied().find(|w| Some(*w) == case["writer"].as_str()).ok_or("unknown writer")?;
+        return twoconn::mig_reader_interrupted(&fx, rd, wr, case["wal"].as_bool().unwrap_or(false), case["k"].as_u64().unwrap_or(1)).map(|_| ());
     }
     if kind != "fault" {
         return Err(format!("unknown kind {kind}"));
@@ -429,6 +438,53 @@ pub fn run(args: &Args) -> i32 {
         for l in out4.into_inner().unwrap() {
             let parts: Vec<&str> = l.splitn(5, '|').collect();
             run.fail("twoconn", format!("twoconn:{}:{}:{}:{}", parts[0], parts[1], parts[2], parts[3]), parts[4].to_string(), json!({"op": parts[0], "wal": parts[1] == "true", "x": parts[2].parse::<u64>().unwrap(), "class": parts[3].parse::<u64>().unwrap()}));
+        }
+        // class 5 for the pool-migration snapshot reads
+        {
+            let reads = migops::migration_reads();
+            let mut mjobs: Vec<(usize, &'static str, bool, u64)> = vec![];
+            for (i, rd) in reads.iter().enumerate() {
+                if args.tier == Tier::Quick && i % 2 == 1 {
+                    continue;
+                }
+                let rs = twoconn::mig_reader_steps(&fx, rd);
+                let stride = (rs / args.tier.pick(12u64, 400u64)).max(1);
+                run.section(&format!("two_connections:{}", rd.name), json!({"reader_vm_steps": rs, "reader_step_stride": stride, "writers": twoconn::MIG_WRITERS}));
+                if stride > 1 {
+                    run.not_exhaustive();
+                }
+                let mut k = 1;
+                while k <= rs {
+                    for wr in twoconn::MIG_WRITERS {
+                        for wal in [false, true] {
+                            mjobs.push((i, wr, wal, k));
+                        }
+                    }
+                    k += stride;
+                }
+            }
+            let mfails: Mutex<Vec<(usize, &'static str, bool, u64, String)>> = Mutex::new(vec![]);
+            par_map(
+                &mjobs,
+                || (),
+                |_, (i, wr, wal, k)| {
+                    if t0.elapsed().as_secs_f64() > wall_cap + args.tier.pick(18.0, 160.0) {
+                        skipped.fetch_add(1, Ordering::Relaxed);
+                        return;
+                    }
+                    match twoconn::mig_reader_interrupted(&fx, &reads[*i], wr, *wal, *k) {
+                        Ok(o) => {
+                            run.eval_distinct(1);
+                            run.outcome(&format!("mig-reader:{}:{o}", if *wal { "wal" } else { "journal" }));
+                        }
+                        Err(e) if e.starts_with("MACHINERY") => mc_core::machinery_error(&e),
+                        Err(e) => mfails.lock().unwrap().push((*i, wr, *wal, *k, e)),
+                    }
+                },
+            );
+            for (i, wr, wal, k, e) in mfails.into_inner().unwrap() {
+                run.fail("migread", format!("migread:{}:{wr}:{wal}:{k}", reads[i].name), e, json!({"read": reads[i].name, "writer": wr, "wal": wal, "k": k}));
+            }
         }
         let sk2 = skipped.load(Ordering::Relaxed);
         if sk2 > sk {
